@@ -12,7 +12,7 @@ import bibgen
 from props.base import to_request, corpus_for  # noqa: F401
 
 ID = 'C02'
-LEAN_MODULES = ['PybtexModel.Props.C02']
+LEAN_MODULES = ['PybtexModel.Props.C02', 'PybtexModel.Props.C02x']
 THEOREMS = {
     'C02_person_roundtrip': 'persons: for every person satisfying the explicit predicate WFPerson, Person(_format_name(p)) = Person(str(p)) = p (same five token lists, nothing reported) and both texts coincide',
     'C02_person_roundtrip_comma_needed': 'persons: kernel-evaluated witnesses for repair C02-1 - "Last, Jr" is read with Jr as first name and "World Bank" with World as first name, "Last, Jr," and "World Bank," are read back correctly',
@@ -38,6 +38,16 @@ THEOREMS = {
     'C02_five_neg': 'finding C02-five-characters (counterexample): with the encoder that re-escapes # % & _ ~ the value R&D 100% a_b #1 x~y is written and read back escaped; with the identity encoder it comes back unchanged',
     'C02_repr_logic': 'repr / eval: evaluating the constructor calls Entry.__repr__ (type as written, field pairs, Person(str(p)) per role) and BibliographyData.__repr__ (key / entry pairs, preamble list) print gives the database back - any role names, empty roles, the preamble list unjoined - when identifiers are distinct up to case and persons are WFPerson; nothing reported',
     'C02_serial_witness': 'non-vacuity of the serialiser hypotheses: a Serial lossless on EVERY tree (identity encoder, prefix-code printers) exists - a Lean artefact, not PyYAML / xml.*, which lose some trees; C02_chain and C02_lower instantiated with it hold without hypotheses on the example database',
+    'C02_encode_exact': 'encoder (model encodeLatex of Writer._encode with the default encoding, tied by the op encode and by the regenerated latexcodec table): for EVERY string, encodeLatex s = s if and only if s contains none of # % & _ ~, and the result is never shorter; no hypotheses',
+    'C02_bibtex_roundtrip_latex': 'bibtex with the MODELLED encoder in place of the encoder hypothesis: WFDb d  =>  write_stream with _encode = encodeLatex succeeds and the text is read back with nothing raised or reported as the same entries and preamble (one string); no hypothesis about latexcodec left in the statement (the tie of encodeLatex to latexcodec is the differential check)',
+    'C02_chain_latex': 'chains with the modelled encoder: for every Serial whose encode field is encodeLatex the encoder hypothesis of C02_chain / C02_lower / C02_chain_steps holds, hence their conclusions under the remaining hypotheses (d in the domain of each format, YAML / XML serialisers lossless on the trees written along the chain)',
+    'C02_encode_any_encoding': 'any output encoding (Writer(encoding=...), to_bytes / to_file with encoding=): for EVERY string all of whose characters the encoding can represent, codecs.encode(s, "ulatex+<encoding>") - C09 model of the codec, the function both the LaTeX backend and this writer call - equals encodeLatex s, so a string free of # % & _ ~ is written unchanged under every such encoding (composition with C09; function-level op encodeenc)',
+    'C02_encode_any_encoding_neg': 'the hypothesis "the encoding can hold the string" cannot be dropped (kernel-evaluated): with ascii an e-acute is written as a LaTeX macro the .bib reader does not translate back, en dash / dagger likewise, a CJK character raises UnicodeEncodeError - the reason ASSUMPTIONS keeps to encodings that can hold every string',
+    'C02_encode_comments': '_encode_with_comments (preamble): for EVERY text free of # & _ ~ (percent signs allowed) the result is the text itself; split("%") / "%".join is the identity on every text. Writer level only: the claimed round-trip domain still excludes % in preambles',
+    'C02_bibtex_roundtrip_percent': 'bibtex, a hypothesis removed for the preamble: on WFDbP (= WFDb with the preamble only required to be balanced, white-space-normalised and free of # & _ ~ - percent signs allowed; contains WFDb, proved for every database) the writer with the modelled encoder succeeds and the text is read back with nothing raised or reported as the same entries and the same preamble (one string); exercised by the stream preamble-percent with the oracle on',
+    'C02_xml_text_lexical': 'BibTeXML text, lexical level, EVERY string, no hypotheses: escape(s) is read back as s by the reference reading of character data (Spec xmlUnescape: five predefined entities + three character references, compared with expat by the op xmlesc), quoteattr(s) is a quoted value free of its own quote character that denotes s and contains no literal tab / newline / return. Tags are written raw and stay under the per-tree hypothesis',
+    'C02_xml_text_example': 'BibTeXML text: the exact characters of to_string("bibtexml") (indentation, xmlns declaration on the first element only, attribute quoting, empty element, empty role skipped, preamble not written) and of the declaration written by write_stream, on an example (kernel evaluation of the model compared with the real writer by the op xmltext)',
+    'C02_tables_agree': '[model wiring] the constants the models hard-code equal the tables regenerated on every run from latexcodec (all BMP code points, every 16th above), xml.sax.saxutils, XMLGenerator and _PrettyXMLWriter (Gen/C02Tables.lean): the five characters and their images, space-eating after ~ only, UTF-8, escape / quoteattr images, namespace, XML declaration, indentation width 4, the five part names',
     'C02_chain_steps_nonvacuous': 'the per-tree hypothesis is strictly weaker than losslessness on every tree: a serialiser refusing every text with U+0085 (as PyYAML does) is NOT lossless everywhere, yet lossless on all trees of a four-format chain of the example in both preserve_case modes, so C02_chain / C02_lower / C02_chain_steps apply to it',
 }
 RULE = ('databases as JSON (entries with key, type as written, ordered fields, ordered roles with persons as five token lists, preamble list) '
@@ -52,9 +62,14 @@ RULE = ('databases as JSON (entries with key, type as written, ordered fields, o
         '8 persons per role; non-ASCII identifiers (keys, types, field names: Ä ß ǅ Ж ẞ ...) through YAML / BibTeXML chains and lower(); an outside-domain stream '
         '(non-normalised white space, unbalanced braces, fields named like roles: correspondence only); reader-only YAML/XML trees (non-string scalars, every '
         'person element form); pickle and eval(repr()) executed for real, the entry type as written included (oracle only); '
+        'round 2, function level: Writer._encode / _encode_with_comments on every word <=3 over {~ blank a % # \\ { _} + the value pools + random non-ASCII words; '
+        'Writer(encoding=ascii / latin-1 / UTF-8)._encode incl. characters the encoding cannot hold; Writer.quote on the value pools + brace words (nesting 99 / 100 / 101, unmatched); '
+        'escape / quoteattr on every word <=3 over {& < > " \' newline tab return a ; #} + keys (read back by expat: oracle); _to_dict (the tree) and the exact BibTeXML text '
+        '(to_string and to_bytes) on ~500 databases of all streams + keys / values with quotes, < & newline; preambles with percent signs only (oracle on); '
         'non-trivial = a database with a field or person / a person with >1 token; distinct by case JSON')
 TRUSTED = ['PyYAML (yaml.dump / yaml.load with the ordered dumper/loader), xml.sax XMLGenerator + ElementTree, latexcodec, pickle: parameters of the '
            'model with the hypotheses load(dump t) = t - asked only for the trees pybtex writes for the database at hand (LosslessOn; false of the real libraries on some trees, e.g. U+0085 in YAML, non-XML names / characters) - resp. encode = id on strings free of # % & _ ~; exercised for real on every case, not proved',
+           'latexcodec (round 2): the theorems with suffix _latex / C02_encode_* are about the modelled encoder encodeLatex and about C09\'s model of codecs.encode(…, "ulatex+<encoding>"); that these ARE latexcodec is differential testing (ops encode, encodeenc) plus the table regenerated from every BMP code point on every run (C02_tables_agree); xml.sax.saxutils.escape / quoteattr and XMLGenerator are modelled for UTF-8 (ops xmlesc, xmltext, tables regenerated); expat is represented by the Spec reading xmlUnescape / xmlAttrValue',
            'the harness keeps databases PyYAML / XML cannot represent out of the claimed domain (U+0085; XML names for identifiers, XML characters): the quantifier\'s "XML-representable" is not a Lean predicate, in the theorems it is the per-tree hypothesis LosslessOn']
 ASSUMPTIONS = ['identifiers contain neither U+0130 (its lower-case form is two characters) nor U+03A3 (final-sigma rule): elsewhere the model lower-cases them as str.lower() does (table regenerated from the interpreter; explicit predicate lowerDomain in WFDbTree)',
                'BibTeXML identifiers are XML names expat accepts (ASCII and Latin-1 letters are generated); after a YAML step has put the value of a field called type in the place of the entry type (finding C02-yaml-type-field) later formats are only checked when that value is alphanumeric',
@@ -334,9 +349,61 @@ def impl(case):
             r = canon_reports(captured)
             r['db'] = canon_db(db)
             return r
+        if op == 'encode':
+            from pybtex.database.output.bibtex import Writer
+            w = Writer()
+            return {'text': w._encode(case['s']), 'comments': w._encode_with_comments(case['s'])}
+        if op == 'encodeenc':
+            from pybtex.database.output.bibtex import Writer
+            try:
+                return {'text': Writer(encoding=case['encoding'])._encode(case['s'])}
+            except UnicodeEncodeError:
+                # the error point of the codec the model names too (encodeWith = none)
+                return {'error': 'UnicodeEncodeError'}
+        if op == 'quote':
+            from pybtex.database.output.bibtex import Writer
+            return {'text': Writer().quote(case['s'])}
+        if op == 'yamltree':
+            from pybtex.database.output.bibyaml import Writer
+            return {'tree': _tree_of_py(Writer()._to_dict(build_db(case['db'])))}
+        if op == 'xmltext':
+            db = build_db(case['db'])
+            return {'string': db.to_string('bibtexml'), 'stream': db.to_bytes('bibtexml', encoding='UTF-8').decode('UTF-8')}
+        if op == 'xmlesc':
+            from xml.sax.saxutils import escape, quoteattr
+            s = case['s']
+            r = {'escape': escape(s), 'quoteattr': quoteattr(s)}
+            extra = {}
+            try:
+                import xml.etree.ElementTree as ET
+                el = ET.fromstring('<a b=%s>%s</a>' % (r['quoteattr'], r['escape']))
+                extra['text'] = el.text or ''
+                extra['attr'] = el.get('b')
+            except Exception as e:  # noqa
+                extra['parse_error'] = type(e).__name__
+            try:
+                import xml.etree.ElementTree as ET
+                extra['raw'] = ET.fromstring('<a>%s</a>' % s).text or ''
+                if len(ET.fromstring('<a>%s</a>' % s)):
+                    extra['raw'] = None
+            except Exception:  # noqa
+                extra['raw'] = None
+            r['extra'] = extra
+            return r
         raise ValueError(op)
     except Exception as e:  # noqa
         return {'error': compat.pybtex_error_kind(e)}
+
+
+def _tree_of_py(v):
+    """what Writer._to_dict returns -> the JSON tree of the driver (str | list | {"map": [[k, v]...]} | {"other": text})"""
+    if isinstance(v, str):
+        return v
+    if isinstance(v, list):
+        return [_tree_of_py(x) for x in v]
+    if isinstance(v, dict):
+        return {'map': [[k, _tree_of_py(x)] for k, x in v.items()]}
+    return {'other': str(v)}
 
 
 def _py_of_tree(t):
@@ -573,6 +640,23 @@ def oracle(case, io, reply):
                 # "the same entry types": the type as written counts (repair C02-4: Entry.__repr__ shows original_type)
                 fails.append('repr: eval(repr(db)) = %r, expected %r' % (r, me))
         return fails
+    if op == 'xmlesc':
+        # "XML-representable": what the writer emits for character data / the id attribute is read back by the real parser
+        # as the string (expat normalises a literal carriage return in character data: kept out, as in xml_representable)
+        s = case['s']
+        if 'error' in io or not _xml_chars(s) or '\r' in s:
+            return fails
+        ex = io['extra']
+        if ex.get('parse_error') or ex.get('text') != s or ex.get('attr') != s:
+            fails.append('xml_text: %r written as text %r / attribute %r is read back as %r' % (s, io['escape'], io['quoteattr'], ex))
+        # the reference reading of Spec/BibWriteText.lean is sound for expat: where both read s as character data they agree
+        if spec.get('raw_reading') is not None and ex.get('raw') is not None and spec['raw_reading'] != ex['raw']:
+            fails.append('xml_text: the reference reading of %r is %r, expat reads %r' % (s, spec['raw_reading'], ex['raw']))
+        return fails
+    if op == 'encodeenc':
+        # spec: encodeLatex s (the default-encoding result); C02_encode_any_encoding: equal whenever the encoding holds s.
+        # Advisory for the code (model-derived), so a difference is a correspondence matter; nothing to add here.
+        return fails
     if op == 'yamlread':
         if 'error' in io:
             return fails
@@ -695,7 +779,10 @@ def match_five(case, io, text):
         return False
     if text.startswith(_convert_tag(case) + ': preamble '):
         # the other text of a preamble failure, and a preamble lost to BibTeXML, never start like this with a five-free preamble
-        return _has_five(''.join(case['db']['preamble'])) and 'bibtexml' not in case['chain']
+        # (round 2) the preamble goes through _encode_with_comments, which keeps percent signs: a preamble whose only
+        # character of the five is % DOES survive (C02_encode_comments; verified on the unchanged code), so a failure on it
+        # is not this finding
+        return any(c in '#&_~' for c in ''.join(case['db']['preamble'])) and 'bibtexml' not in case['chain']
     return _match_five_entry(case, io, text)
 
 
@@ -722,10 +809,12 @@ def buckets(case, io):
 
 
 def nontrivial(case, io):
-    if case['op'] in ('convert', 'bibwrite', 'lowerdb'):
+    if case['op'] in ('convert', 'bibwrite', 'lowerdb', 'yamltree', 'xmltext'):
         return any(e['fields'] or e['persons'] for e in case['db']['entries'])
     if case['op'] == 'personfmt':
         return sum(len(x) for x in case['person']) > 1
+    if case['op'] in ('encode', 'quote', 'xmlesc', 'encodeenc'):
+        return len(case['s']) > 1
     return True
 
 
@@ -995,6 +1084,14 @@ def gen_cases(tier, rng, info):
         cases.append({'op': 'convert', 'db': j, 'chain': chain, 'preserve_case': rng.random() < 0.6 or len(chain) < 2, 'stream': 'finding:five-characters'})
         if i % 4 == 0:
             cases.append({'op': 'bibwrite', 'db': j})
+    # --- (round 2) preambles whose only special character is the percent sign: _encode_with_comments keeps them, they are
+    # inside the stated quantifier and DO survive (oracle on; match_five no longer explains a failure here)
+    for pre in (['50% off'], ['a % b %% c'], ['%'], ['x%', 'y'], ['% \\newcommand{\\x}{y} % z'], ['100%', '%', '{%}']):
+        for chain in CHAINS1[:2] + [('bibtex', 'bibtex'), ('bibtex', 'yaml'), ('yaml', 'bibtex'), ('bibtex', 'yaml', 'bibtex')]:
+            j = _db([_entry('k', 'misc', [('title', 'T')], [])], pre)
+            cases.extend(_convert_cases(j, [chain], 'preamble-percent'))
+            j = _db([], pre)
+            cases.extend(_convert_cases(j, [chain], 'preamble-percent', preserve=(True,)))
     # --- values only YAML / BibTeXML can carry (not white-space-normalised, YAML-significant spellings): chains of these two
     for i in range(250 if not thorough else 3000):
         j = _random_db(rng, psample, VALUES + VALUES_TREE * 3, out=False, min_entries=1, tree_keys=True)
@@ -1033,10 +1130,69 @@ def gen_cases(tier, rng, info):
         cases.append({'op': 'bibwrite', 'db': j})
     # --- reader-only trees (YAML values that are not strings, person elements in every form)
     cases.extend(_tree_cases(rng, thorough))
+    # --- function level (round 2): the encoder, quote / check_braces, escape / quoteattr, _to_dict, the BibTeXML text
+    cases.extend(_function_cases(rng, thorough, cases))
     return cases
 
 
 ENCODINGS = ['UTF-8', 'latin-1', 'UTF-16', 'cp1252', 'ascii']
+
+ENC_ALPHABET = ['~', ' ', 'a', '%', '#', '\\', '{', '_']
+XML_ALPHABET = ['&', '<', '>', '"', "'", '\n', '\t', '\r', 'a', ';', '#']
+QUOTE_EXTRA = ['{', '}', '{}', '}{', '{{}', '{}}', '{"}', '"{', 'a}b{c', '{' * 99 + '}' * 99, '{' * 100 + '}' * 100, '{' * 101 + '}' * 101,
+               '{' * 101, '{' * 150 + '}' * 150 + '"', '\\{', '\\}', '{\\}', 'a{b}c{d', '{a}}{', '}']
+
+
+def _words(alphabet, maxlen):
+    for n in range(0, maxlen + 1):
+        for w in itertools.product(alphabet, repeat=n):
+            yield ''.join(w)
+
+
+def _function_cases(rng, thorough, sofar):
+    out = []
+    # _encode / _encode_with_comments: every word over the alphabet (the five characters in every context of the two-state
+    # space rule), the value pools, random longer words with non-ASCII characters
+    for w in _words(ENC_ALPHABET, 3 if not thorough else 4):
+        out.append({'op': 'encode', 's': w})
+    for v in VALUES + VALUES_FIVE + VALUES_OUT + VALUES_TREE + ['&', '_', '#', 'é~é', '~\u2014', '\u2013 \u2020', '~\n~\t~']:
+        out.append({'op': 'encode', 's': v})
+    pool = ENC_ALPHABET + ['&', '}', '"', '\n', 'é', '\u2013', '\U0001F600', 'x y', '\\textasciitilde']
+    for _ in range(300 if not thorough else 5000):
+        out.append({'op': 'encode', 's': ''.join(rng.choice(pool) for _ in range(rng.randint(2, 12)))})
+    # Writer(encoding=...)._encode: the option the transports vary (ascii / latin-1 / UTF-8), characters the encoding cannot
+    # hold included (translated by latexcodec, or UnicodeEncodeError)
+    epool = ENC_ALPHABET + ['&', '\xe9', '\xfc', '\xdf', '\xa0', '\u2013', '\u2014', '\u2020', '\u0142', '\u0159', '\u03b1', '\u4e2d', '\u20ac', 'x']
+    for enc in ('ascii', 'latin-1', 'UTF-8'):
+        for c in epool:
+            out.append({'op': 'encodeenc', 's': c, 'encoding': enc})
+            out.append({'op': 'encodeenc', 's': c + 'a ' + c + ' ' + c, 'encoding': enc})
+        for _ in range(120 if not thorough else 2000):
+            out.append({'op': 'encodeenc', 's': ''.join(rng.choice(epool) for _ in range(rng.randint(2, 8))), 'encoding': enc})
+    # quote / check_braces: both error points (unmatched at the end, nesting > 100), the choice of delimiters
+    for v in VALUES + VALUES_OUT + QUOTE_EXTRA:
+        out.append({'op': 'quote', 's': v})
+    for _ in range(300 if not thorough else 4000):
+        out.append({'op': 'quote', 's': ''.join(rng.choice(['{', '}', '"', 'a', ' ', '\\', '{x}']) for _ in range(rng.randint(1, 9)))})
+    # escape / quoteattr: every word over what they treat specially
+    for w in _words(XML_ALPHABET, 3 if not thorough else 4):
+        out.append({'op': 'xmlesc', 's': w})
+    for v in VALUES + VALUES_TREE + KEYS + KEYS_TREE + KEYS_U + ['&amp;', '&lt', '&#10;', '&quot;x', 'a&b;c', ']]>', '<![CDATA[x]]>']:
+        out.append({'op': 'xmlesc', 's': v})
+    # _to_dict and the BibTeXML text on databases of the streams above (every stream, findings and outside-domain included)
+    dbs = [c['db'] for c in sofar if c['op'] == 'convert']
+    step = max(1, len(dbs) // (500 if not thorough else 4000))
+    for j in dbs[::step]:
+        out.append({'op': 'yamltree', 'db': j})
+        out.append({'op': 'xmltext', 'db': j})
+    for key in ['k"1', "k'2", 'k"\'3', 'a<b', 'x&y', 'tab\there', 'nl\nkey', 'cr\rkey', '', ' sp ']:
+        for v in ['', 'a<b>&c', ']]>', ' lead', 'x\ny', '"q"']:
+            j = _db([_entry(key, 'Book', [('title', v), ('Year', '')], [['author', [[['F'], [], ['von'], ['L'], []]]], ['editor', []]])], ['pre'])
+            out.append({'op': 'xmltext', 'db': j})
+            out.append({'op': 'yamltree', 'db': j})
+    out.append({'op': 'xmltext', 'db': _db([])})
+    out.append({'op': 'yamltree', 'db': _db([], ['p1', 'p2'])})
+    return out
 
 
 def _pick_transport(c, i, rng):
@@ -1156,7 +1312,10 @@ LEVEL_TEXT = ('Machine-checked proofs (Lean 4) about function-by-function models
               'chain of formats preserves the entries with nothing reported at any step (C02_chain_steps), and lower-casing (str.lower(), Unicode table) changes only the letter case of keys, types, field names '
               'and roles; (5) our formalisation WFDbQ of the stated quantifier (it excludes more than the published text: see the note) minus four explicitly named classes lies in these domains (C02_quantifier_partial); on '
               'each of the four classes the round trip FAILS, with a kernel-evaluated counterexample and a recorded finding. The models are tied to the code '
-              'by the differential check, which also runs pickle and eval(repr()) for real.')
+              'by the differential check, which also runs pickle and eval(repr()) for real. Round 2: (6) the encoder of the BibTeX writer is inside the theorems - encodeLatex (op encode, table regenerated from latexcodec on every run) is the identity exactly off # % & _ ~ '
+              '(C02_encode_exact), the BibTeX round trip and the chain theorems hold with it and no encoder hypothesis (C02_bibtex_roundtrip_latex, C02_chain_latex), for every output encoding that can hold the strings '
+              '(C02_encode_any_encoding, through the codec model of C09); (7) the characters of the BibTeXML text are modelled (_PrettyXMLWriter, escape, quoteattr: op xmltext, exact text) and character data / the id attribute are proved to '
+              'be read back as written under a reference reading of XML references (C02_xml_text_lexical), for every string.')
 LEVEL_NOTE = ('Modelled and proved: pybtex\'s writer / reader / lower / convert logic. ASSUMED (hypotheses of the theorems, exercised by the correspondence '
               'on every case, never proved): PyYAML and xml.* are lossless on the trees pybtex hands them FOR THE DATABASE AT HAND (load(dump t) = t for each tree written along the chain - LosslessOn / stages; not for every tree, which is false of the real libraries), latexcodec changes only '
               '# % & _ ~ (verified on every single code point by a probe), pickle, and repr / eval of Python strings / lists / dictionaries (the two __repr__ and the '
@@ -1184,4 +1343,4 @@ LEVEL_NOTE = ('Modelled and proved: pybtex\'s writer / reader / lower / convert 
               '(BibTeXML role detection case-insensitive), C02-3 (BibliographyData.__repr__ no longer corrupted by keys occurring earlier in the text), C02-4 '
               '(Entry.__repr__ shows the type as written; harness only, repr is not modelled); Model/Names.lean Person.toStr is the pre-repair __str__ (C04 owns '
               'it) - the theorems use BibWrite.personStr. Trusted: Lean kernel; axioms propext/Classical.choice/Quot.sound; the tie between models and code is '
-              'differential testing.')
+              'differential testing. Round 2: latexcodec is no longer a bare hypothesis for the BibTeX theorems with suffix _latex (the modelled encoder encodeLatex stands in the statement; its tie to latexcodec is the op encode / encodeenc and the regenerated table, 131072 code points probed per run); inDomain / WFDbQ-noFinding still exclude a percent sign in the preamble although it survives: C02_bibtex_roundtrip_percent proves the round trip on the wider WFDbP (single BibTeX step; the chain theorems are not restated for it), the oracle checks such preambles and the matcher of C02-five-characters no longer covers them; the BibTeXML TEXT model covers UTF-8 only; tags are written raw (no theorem: per-tree hypothesis); the reference reading xmlUnescape / xmlAttrValue is a Spec (8 references), compared with expat where both accept.')
